@@ -27,6 +27,7 @@
 #       = append / remove (if attached) link ID during the wait that precedes tick k (0-based)
 #   LINKS, DURS = comma separated naturals or `-` for none; HANDLER = 0|1
 #   --dump : JSON with the constants gen/clck.py writes to Gen/Clck.lean
+from excname import exc_name
 import json
 import logging
 import sys
@@ -121,7 +122,7 @@ class FakeThread:
         try:
             self.target(*self.args, **self.kwargs)
         except Exception as e:  # what threading's excepthook would swallow
-            self.w.events.append("E%s:%d" % (type(e).__name__, self.w.now))
+            self.w.events.append("E%s:%d" % (exc_name(e), self.w.now))
         self.alive = False
 
     def join(self, timeout=None):
@@ -188,7 +189,7 @@ def session(w, gen, durs):
     try:
         gen.start()
     except Exception as e:
-        return "EXC %s" % type(e).__name__
+        return "EXC %s" % exc_name(e)
     return " ".join(w.events)
 
 
@@ -227,7 +228,7 @@ def do_hist(tok):
                 gen.stop()
                 out = "ok"
             except Exception as e:
-                out = "EXC %s" % type(e).__name__
+                out = "EXC %s" % exc_name(e)
         elif op.startswith("idle:"):
             w.now += int(op[5:])
             out = "ok"
@@ -308,7 +309,7 @@ def main():
             else:
                 print("bad-op")
         except Exception as e:
-            print("EXC %s" % type(e).__name__)
+            print("EXC %s" % exc_name(e))
 
 
 main()
